@@ -66,7 +66,7 @@ func genCase(prop string) func(t *rapid.T) Case {
 			case "setctx":
 				op.Ctx = rapid.SampledFrom([]string{"new", "new", "same", "nil"}).Draw(t, "ctx")
 			case "finish":
-				op.Out = rapid.SampledFrom([]string{"val", "val", "val", "valnorel", "err", "errrel"}).Draw(t, "out")
+				op.Out = rapid.SampledFrom([]string{"val", "val", "val", "valnorel", "valsame", "err", "errrel", "errcanceled"}).Draw(t, "out")
 				op.Pick = rapid.IntRange(0, 3).Draw(t, "pick")
 			case "finishcb":
 				op.Out = rapid.SampledFrom([]string{"nil", "nil", "err"}).Draw(t, "out")
@@ -79,6 +79,22 @@ func genCase(prop string) func(t *rapid.T) Case {
 			return op
 		})
 		c.Ops = rapid.SliceOfN(genOp, 4, ev.Pick(20, 60)).Draw(t, "ops")
+		if prop == "C10" && rapid.IntRange(0, 3).Draw(t, "prefix") != 0 {
+			// construction: most consumer histories start on a container that resolves promptly
+			c.InitCtx = true
+			pre := []Op{{K: "addref", Cb: "rec"}, {K: "finish", Out: "val"}}
+			switch rapid.IntRange(0, 3).Draw(t, "prefixcons") {
+			case 0, 1:
+				pre = append(pre, Op{K: "consumer", Kind: rapid.SampledFrom(cons).Draw(t, "pk"), Rel: true})
+			case 2:
+				// a consumer holds / works on the value while it is invalidated and an equal value is resolved again
+				pre = append(pre, Op{K: "consumer", Kind: rapid.SampledFrom(cons).Draw(t, "pk"), Rel: true},
+					Op{K: rapid.SampledFrom([]string{"invalidate", "setctx"}).Draw(t, "inv"), Ctx: "new"},
+					Op{K: "finish", Out: rapid.SampledFrom([]string{"valsame", "val", "err"}).Draw(t, "again")},
+					Op{K: "finishcb", Out: "nil"})
+			}
+			c.Ops = append(pre, c.Ops...)
+		}
 		c.Sched = sched.GenSchedule(t, ev.Pick(150, 500))
 		return c
 	}
@@ -145,10 +161,25 @@ func run(t *testing.T, cs Case) *ev.Verdict {
 		Ops        []Op
 	}{cs.Keep, cs.Target, cs.TargetErr, cs.InitCtx, cs.Ops})
 	v.Canon = string(canon)
-	c, berr := sched.Run(t, parkPoints, cs.Sched, func(c *sched.Ctl) { body(c, cs, v) })
+	c, berr := sched.Run(t, parkPoints, cs.Sched, func(c *sched.Ctl) { c.MaxSteps = 8000; body(c, cs, v) })
 	v.Trace = c.Trace()
-	if c.StepLimit {
-		v.Infra = "step limit exceeded"
+	if c.StepLimit && len(v.Viol) == 0 {
+		// who keeps taking sections without blocking?
+		tail := v.Trace
+		if len(tail) > 40 {
+			tail = tail[len(tail)-40:]
+		}
+		cons := 0
+		for _, s := range tail {
+			if strings.HasPrefix(s, "c") {
+				cons++
+			}
+		}
+		if cons*2 > len(tail) {
+			v.Add("C10", "refcount:consumer-spins", "a Wait/Resolve/Access consumer keeps looping without blocking or returning (grant budget exceeded); last grants %v", tail[len(tail)-12:])
+		} else {
+			v.Infra = "step limit exceeded"
+		}
 	}
 	if berr != "" && len(v.Viol) == 0 {
 		v.Add("C09", "refcount:leak", "bubble ended with blocked goroutines: %s", berr)
@@ -205,12 +236,14 @@ func body(c *sched.Ctl, cs Case, v *ev.Verdict) {
 	pendingMut := map[string]func(){}
 	var fireQueue []*consumer // waitrel consumers whose released-goroutine is expected to take a section
 	unexpected := 0
+	setCtxDeviations := 0
 	// non-triviality
 	staleReturn, relRacesLastRelease, keptAcrossZero := false, false, false
 	lateAddRef, lateAddRefNil := false, false
 	restartsWhileReturning := 0
 	twoRestarts := false
 	invalBetweenLookAndReturn, invalWhileHeld := false, false
+	repeatedValue, sentinelError := false, false
 
 	// ---- resolver ----
 	resolver := func(ctx context.Context, released func()) (int, func(), error) {
@@ -247,9 +280,21 @@ func body(c *sched.Ctl, cs Case, v *ev.Verdict) {
 			nextVal++
 			vr.id = nextVal
 			vr.hasRel = out == "val"
+		case "valsame":
+			// an equal value again (e.g. the same pointer): distinct resolution, same comparable value
+			if nextVal == 0 {
+				nextVal++
+			}
+			vr.id = nextVal
+			vr.hasRel = true
+			repeatedValue = true
 		case "err", "errrel":
 			vr.err = fmt.Errorf("resolve-error-%d", ci.id)
 			vr.hasRel = out == "errrel"
+		case "errcanceled":
+			// the resolver fails with context.Canceled on its own account
+			vr.err = context.Canceled
+			sentinelError = true
 		}
 		ci.val = vr
 		m.values = append(m.values, vr)
@@ -270,11 +315,11 @@ func body(c *sched.Ctl, cs Case, v *ev.Verdict) {
 				if !vr.expected {
 					fail("C08", "refcount:released-while-held", "the release function of value %d (call %d) ran although the machine still considers the value held (refs=%d ctx=%d resolved=%v)", vr.id, vr.callID, m.liveRefs(), m.ctxID, m.resolved)
 				}
-				if target != nil && vr.id != 0 && target.GetValue() == vr.id {
+				if target != nil && vr.id != 0 && vr.stored && target.GetValue() == vr.id {
 					fail("C08", "refcount:released-but-exposed", "the release function of value %d ran while the target container still holds it", vr.id)
 				}
 				for _, h := range hrefs {
-					if h.m.live && len(h.log) > 0 {
+					if vr.stored && h.m.live && len(h.log) > 0 {
 						if last := h.log[len(h.log)-1]; last.resolved && last.val == vr.id && last.err == vr.err && vr.id != 0 {
 							fail("C08", "refcount:released-but-not-told", "the release function of value %d ran although reference #%d was last told (resolved=true, %d)", vr.id, h.m.id, last.val)
 						}
@@ -610,7 +655,7 @@ func body(c *sched.Ctl, cs Case, v *ev.Verdict) {
 				hm.Lock()
 				defer hm.Unlock()
 				if got != want {
-					fail("C09", "refcount:setcontext-result", "SetContext(ctx %d) returned %v, the machine says %v", cid, got, want)
+					setCtxDeviations++ // documented, but not part of C08-C10: counted only
 				}
 			})
 		case "finish":
@@ -759,12 +804,8 @@ func body(c *sched.Ctl, cs Case, v *ev.Verdict) {
 						}
 						// not released while held (unless invalidated)
 						st := cn.m.state()
-						if st.resolved && st.val == val {
-							for _, vr := range m.values {
-								if vr.id == val && vr.relCount > 0 {
-									fail("C10", "refcount:consumer-value-released", "%s #%d returned %d which has already been released although it was not invalidated", cn.kind, cn.id, val)
-								}
-							}
+						if st.resolved && st.val == val && m.cur != nil && m.cur.id == val && m.cur.relCount > 0 {
+							fail("C10", "refcount:consumer-value-released", "%s #%d returned %d which has already been released although it was not invalidated", cn.kind, cn.id, val)
 						}
 					case err == context.Canceled && cn.cancelled:
 					default:
@@ -895,6 +936,13 @@ func body(c *sched.Ctl, cs Case, v *ev.Verdict) {
 	hm.Lock()
 	cleanup = true
 	hm.Unlock()
+	if c.StepLimit {
+		// a spinning consumer would spin for real in pass-through mode: cancel it first
+		for _, cn := range conss {
+			cn.cancelled = true
+			cn.cancel()
+		}
+	}
 	if panicked != "" {
 		// the RefCount mutex may be left locked: do not touch the container again and
 		// leave every goroutine parked (the bubble then ends with a recoverable panic)
@@ -995,6 +1043,15 @@ func body(c *sched.Ctl, cs Case, v *ev.Verdict) {
 	}
 	if invalWhileHeld {
 		v.Class("invalidation-while-consumer-holds-reference")
+	}
+	if repeatedValue {
+		v.Class("resolver-returned-an-equal-value-again")
+	}
+	if sentinelError {
+		v.Class("resolver-failed-with-context-canceled")
+	}
+	if setCtxDeviations > 0 {
+		v.Class("setcontext-return-value-differs-from-machine")
 	}
 }
 
